@@ -47,6 +47,7 @@ def run_case(case, ctx):
     except ValueError:
         return Outcome(discarded="unprintable")
     it = model.Interp(files=files_ast)
+    it.fibers = True  # silent background fibers only (see Interp.fibers)
     try:
         res = it.run(main)
     except (model.StepBudget, model.Unsupported) as e:
